@@ -185,7 +185,7 @@ inductive Stmt where
       (order : Option (List OrderItem)) (limit : Option (Int × Option Int))
   | delete (table : TableName) (where_ : Option Expr) (order : Option (List OrderItem)) (limit : Option (Int × Option Int))
   | createTable (c : CreateTable)
-  | createTableAs (table : TableName) (q : Query)
+  | createTableAs (table : TableName) (ifNotExists : Bool) (q : Query)
   | dropTable (ifExists : Bool) (table : TableName)
   | set (c : ConfigStr)
   | analyze (table : TableName) (partition : Option (List Expr)) (forColumns cacheMetadata noscan : Bool)
